@@ -524,7 +524,8 @@ def check_intersect(case, rec):
             g = got[name]
             if g == want[name]:
                 continue
-            desc = (f"{name} model fed {bname} {sizes}: got {g}, independent merge gives {want[name]} "
+            shown = f"AssertionError in addTraces (batch {g[1]})" if isinstance(g, tuple) else g
+            desc = (f"{name} model fed {bname} {sizes}: got {shown}, independent merge gives {want[name]} "
                     f"(fiber by fiber: {[o[name] for o in orc]}); presented lists {lists}, "
                     f"outer {case['outer']}, mode {case['mode']}")
             if arity == 2 and shaped:
@@ -536,7 +537,7 @@ def check_intersect(case, rec):
                     continue
                 raise Violation("batch-" + name, "[P14 shape] " + desc)
             if isinstance(g, tuple):
-                raise Violation("crash", "AssertionError in addTraces; " + desc)
+                raise Violation("crash", desc)
             raise Violation(("count-" if sizes == [1] * n else "batch-") + name, desc)
 
     # classification
@@ -655,7 +656,8 @@ def _pinned_p14():
             "pairs": [[[[2, 1]], [[2, 1], [5, 1]]], [[[7, 1]], [[7, 1]]]], "partition": [2]}
     fbf = session(case, [1, 1])
     one = session(case, [2])
-    bad = [f"{m}: one-shot {one[m]} vs fiber-by-fiber {fbf[m]}" for m in ("tf", "sa") if one[m] != fbf[m]]
+    bad = [f"{m}: one-shot {one[m]} vs fiber-by-fiber {fbf[m]}" for m in ("tf", "sa")
+           if one[m] != fbf[m] or one[m] != 2]
     if bad:
         return ("a=[2] b=[2,5] under J=0 then a=[7] b=[7] under J=1, two comparisons in total; " + "; ".join(bad))
     return None
